@@ -433,6 +433,21 @@ EpisodeEndEv ==
     /\ UNCHANGED <<raw, abs, initRaw, steps, mode, paidVal, paidDisc, prev, grp, ndec, hist>>
     /\ l' = l + 1
 
+\* --------------------------------------------------- coexistence (C19)
+\* measured around every call of a multi-environment schedule: which OTHER live environments had their state
+\* tensor / last observation / API decoding changed by this call.  victims = environments whose layout is not
+\* the one built by this call (only they are covered by the known finding KF_ForeignLayout).
+C19Ev ==
+    /\ l <= N /\ Ev.ev = "c19"
+    /\ LET ev == Ev
+           dc == SeqSet(ev.others_decode_changed)
+           vi == SeqSet(ev.victims) IN
+       Report(Failed(<< <<"C19", "others_unchanged", Len(ev.others_changed) = 0>>,
+                        <<"C19", "decoding_of_others_stable", dc \subseteq vi>>,
+                        <<"C19", "decoding_of_others_stable_foreign_layout", dc \cap vi = {}>> >>), ev.i)
+    /\ UNCHANGED <<raw, abs, initRaw, steps, mode, paidVal, paidDisc, prev, grp, ndec, hist>>
+    /\ l' = l + 1
+
 \* --------------------------------------------------------------- malformed
 MalformedEv ==
     /\ l <= N /\ Malformed(Ev)
@@ -465,12 +480,12 @@ RaisedEv ==
 \* an event kind this monitor has no clauses for (validated by another module)
 OtherEv ==
     /\ l <= N /\ Ev.ev \notin {"create", "reset", "step", "genstep", "goal", "raised", "actions", "decode",
-                              "decode_done", "mask", "readable", "plan_end", "episode_end"}
+                              "decode_done", "mask", "readable", "plan_end", "episode_end", "c19"}
     /\ UNCHANGED <<raw, abs, initRaw, steps, mode, paidVal, paidDisc, prev, grp, ndec, hist>>
     /\ l' = l + 1
 
 Next == Create \/ ResetEv \/ StepEv \/ GoalEv \/ RaisedEv \/ ActionsEv \/ DecodeEv \/ DecodeDoneEv
-        \/ MaskEv \/ ReadableEv \/ PlanEndEv \/ EpisodeEndEv \/ MalformedEv \/ OtherEv
+        \/ MaskEv \/ ReadableEv \/ PlanEndEv \/ EpisodeEndEv \/ C19Ev \/ MalformedEv \/ OtherEv
 
 Spec == Init /\ [][Next]_vars
 
